@@ -11,7 +11,7 @@ def run(tier, seed):
     rep.absorb(res)
     stderr = list(res.stderr_all)
     # (b) domain sweeps, parsers, buffer bounds, unvalidated-call probes
-    exe2 = build_driver('c09_sweeps.cpp', 'sanrec')
+    exe2 = build_driver('c09_sweeps.cpp', 'sanrec0')   # unoptimised: every UB site reports under its own function (see runner.FLAVOURS)
     res2 = run_shards(exe2, [], tier=tier, seed=seed, timeout=3000, san=True, env=env)
     rep.absorb(res2)
     stderr += res2.stderr_all
@@ -26,7 +26,7 @@ def run(tier, seed):
     c = rep.coverage
     c['ub_sites_reported'] = sorted(ub)
     rep.assumptions += [
-        'ASan + UBSan (g++ 12, -O1) on the LP64 host through the Arduino shim; AVR-width arithmetic (16-bit int) is not reachable here',
+        'ASan + UBSan (g++ 12; -O1 for the history worlds, -O0 for the domain sweeps so that every undefined-behaviour site is attributed to its own function) on the LP64 host through the Arduino shim; AVR-width arithmetic (16-bit int) is not reachable here',
         'UBSan runs in report-and-continue mode: every distinct undefined-behaviour site reached is a violation keyed ubsan:<kind>:<function>; ASan reports abort the shard/child and are attributed through the journal',
         'out-of-range arguments must give isError()/""/kErrorMinutes on a fresh object and (through the history worlds) every time they are repeated',
         'extended high-water mark must be < ZoneInfo.transitionBufSize and < 8 for every shipped zone and year 1999..2050; basic processors must never drop a transition (guarded hook) nor use more than 5 slots',
